@@ -246,7 +246,25 @@ def _c16(tier, seed):
     return [dict(name="loop", pkg=".", harness=NET_HARNESS + ["harness/root/c16.go"], runs=runs, solver="z3", walllimit=600, timeout=3000, replay="schedule",
                  crash_tags=["process-survives"], validate_runs=["H_C16_message(0,1)", "H_C16_message(2,1)", "H_C16_message(9,1)"], veclen=100)]
 
+def _c18(tier, seed):
+    q = tier == "quick"
+    runs = ["H_C18_refuse(%d)" % k for k in range(6)]
+    for g in ((seed % 6,) if q else range(6)):
+        for pl in (1, 2):
+            for a in (0, 1):
+                for b in (0, 1):
+                    runs.append("H_C18_accept(%d,%d,%d,%d)" % (g, pl, a, b))
+    return [dict(name="srp", pkg="telegram/internal/srp", harness=["harness/srp/c18.go"], runs=runs, solver="cvc5", qtimeout=30000, walllimit=600, timeout=3000,
+                 validate_runs=["H_C18_accept(1,2,1,1)", "H_C18_accept(2,1,0,1)", "H_C18_refuse(4)", "H_C18_refuse(0)"], veclen=1200)]
+
 PROPS = {
+    "C18": dict(
+        jobs=_c18,
+        bounds={"quick": "passwords of 1..2 bytes, salts of 0..1 bytes, every 2048-bit modulus p (top bit set), every server value 0 < B < p sent as 256 bytes, every 256-byte client secret a, one generator g per run (seed-chosen from 2..7); A, S with 0..2 leading zero bytes; B in {0, p, p+1}, 240..247 and 257 bytes, and the empty password",
+                "thorough": "all generators 2..7"},
+        outside="the SRP-6a identity itself (trusted: a server holding v accepts the M1 of Telegram's client-side definition), PBKDF2/SHA internals (uninterpreted), longer passwords/salts (they only flow into hashes), rejection of a wrong password (needs injectivity facts about modexp that are not valid to assume), the group-parameter check (a stub in the repository)",
+        assumptions=["modexp, the products k*v and u*x, and the reduction of k*v modulo p are uninterpreted functions with range facts (result < modulus)", "math/big.Int modelled as bit-vectors, Bytes() explored for 0..2 leading zero bytes", "SHA-256 / PBKDF2-HMAC-SHA512 uninterpreted per input length"],
+    ),
     "C11": dict(
         jobs=_c11,
         bounds={"quick": "1 and 2 requests in flight, every non-empty subset of them rejected with bad_server_salt, 1 and 2 successive rotations (symbolic salts), the others accepted and answered after the rotation; new_session_created with a symbolic salt; the library's own receive loop over a fake transport; probe request afterwards",
